@@ -183,8 +183,33 @@ def pRLine : TP RLine := do
 
 def showCb (c : Chunk) : String := s!"{hexOrDash c.content}/{b01 c.done}/{c.reason}/{c.pec}/{c.ec}"
 
+def optTok {α : Type} (p : String → Option α) : TP (Option α) := do
+  let t ← tok
+  if t == "?" then pure none else match p t with
+    | some v => pure (some v)
+    | none => failure
+
+def pPItem : TP PItem := do
+  let t ← tok
+  if t == "p" then do
+    let st ← hex
+    pure (.progress st)
+  else if t == "e" then do
+    let m ← optTok (fun t => if t == "-" then some [] else unhex t)
+    let st ← optTok String.toNat?
+    pure (.err m st)
+  else if t == "o" then pure .other
+  else failure
+
 def handle (toks : List String) : Option String :=
   match toks with
+  | "progress" :: rest =>
+    -- progress <n> {p <statushex> | e <msghex|?> <status|?> | o}*  ->  200 success | <status> e:<hex>   (waitForStream)
+    runTP (do
+      let items ← listOf pPItem
+      pure (match waitForStreamM items with
+        | .success => "200 success"
+        | .error st m => s!"{st} e:{hexOrDash m}")) rest
   | "completion" :: rest =>
     -- completion <httpFail 0|1> <clean|broken> <n> {blank | bad | r <contenthex> <done> <reason> <pec> <ec>}*
     --   -> {contenthex/done/reason/pec/ec}* <nil|err>     (what llmServer.Completion hands to the callback, and its return)
